@@ -28,7 +28,7 @@ fn k_model_memory_sizes_total() {
 
 // ---- independent packer of dat entries (the format as the property describes it), used by the native bounded stand-ins ----
 #[derive(Clone, Copy, PartialEq)]
-enum NMode { Raw, DeflateStored, DeflateFixed }
+enum NMode { Raw, DeflateStored, DeflateFixed, /* fixed-Huffman stream with one back-reference for a 6-byte content xyzxyz: exactly 6 bytes long, i.e. as long as its content */ DeflateRepeat3 }
 
 fn nd_pad128(v: &mut Vec<u8>) { while v.len() % 128 != 0 { v.push(0); } }
 fn nd_pattern(len: usize, seed: u32) -> Vec<u8> {
@@ -47,6 +47,22 @@ fn nd_deflate_fixed(content: &[u8]) -> Vec<u8> {
     put(0, 7, false, &mut out); // flush the last partial byte
     out
 }
+/// content = x y z x y z (each below 144): three literals, then the match (length 3, distance 3), end of block: 3 + 24 + 7 + 5 + 7 = 46 bits = 6 bytes
+fn nd_deflate_repeat3(content: &[u8]) -> Vec<u8> {
+    assert!(content.len() == 6 && content[0..3] == content[3..6] && content.iter().all(|b| *b < 144), "DeflateRepeat3 takes a content of the form xyzxyz");
+    let mut out: Vec<u8> = vec![]; let mut acc: u32 = 0; let mut nb = 0u32;
+    let mut put = |v: u32, n: u32, msb_first: bool, out: &mut Vec<u8>| {
+        for k in 0..n { let bit = if msb_first { (v >> (n - 1 - k)) & 1 } else { (v >> k) & 1 }; acc |= bit << nb; nb += 1; if nb == 8 { out.push(acc as u8); acc = 0; nb = 0; } }
+    };
+    put(1, 1, false, &mut out); put(1, 2, false, &mut out); // BFINAL = 1, BTYPE = 01
+    for b in &content[0..3] { put(0x30 + *b as u32, 8, true, &mut out); }
+    put(257 - 256, 7, true, &mut out); // length symbol 257 = match length 3 (no extra bits)
+    put(2, 5, true, &mut out);         // distance code 2 = distance 3 (no extra bits)
+    put(0, 7, true, &mut out);         // end of block
+    put(0, 7, false, &mut out);        // flush
+    assert_eq!(out.len(), 6);
+    out
+}
 fn nd_block(content: &[u8], mode: NMode) -> Vec<u8> {
     let mut out = vec![];
     out.extend_from_slice(&16u32.to_le_bytes());
@@ -55,6 +71,7 @@ fn nd_block(content: &[u8], mode: NMode) -> Vec<u8> {
         NMode::Raw => None,
         NMode::DeflateStored => { let mut s = vec![0x01u8]; s.extend_from_slice(&(content.len() as u16).to_le_bytes()); s.extend_from_slice(&(!(content.len() as u16)).to_le_bytes()); s.extend_from_slice(content); Some(s) }
         NMode::DeflateFixed => Some(nd_deflate_fixed(content)),
+        NMode::DeflateRepeat3 => Some(nd_deflate_repeat3(content)),
     };
     match stream {
         None => { out.extend_from_slice(&32000i32.to_le_bytes()); out.extend_from_slice(&(content.len() as i32).to_le_bytes()); out.extend_from_slice(content); }
@@ -166,7 +183,7 @@ fn nd_blocks(content: &[u8], shape: usize, modes: usize) -> Vec<(Vec<u8>, NMode)
     out
 }
 
-//@unit props=C02 label=B tier=quick native=1 fn=sqpack::data::SqPackData::{read_from_offset,read_standard_file,read_texture_file,read_model_file},sqpack::read_data_block,compression::no_header_decompress bound="by execution on temporary dat files: standard entries of 9 lengths (0..40000) x 4 block splits x 4 raw/deflate assignments (stored and fixed-Huffman streams); texture entries with 1..3 mips of 1..4 unevenly sized blocks; model entries with 1..3 LODs and 0..3 blocks per section, incl. LODs with indices but no vertices, vertices but no indices, and an empty middle LOD, and with the sections stored with holes between them, with the runtime section last and in reverse order; entry offsets 0, 128, 0x800"
+//@unit props=C02 label=B tier=quick native=1 fn=sqpack::data::SqPackData::{read_from_offset,read_standard_file,read_texture_file,read_model_file},sqpack::read_data_block,compression::no_header_decompress bound="by execution on temporary dat files: standard entries of 9 lengths (0..40000) x 4 block splits x 4 raw/deflate assignments (stored and fixed-Huffman streams, incl. streams with a back-reference that are exactly as long as their 6-byte content); texture entries with 1..3 mips of 1..4 unevenly sized blocks; model entries with 1..3 LODs and 0..3 blocks per section, incl. LODs with indices but no vertices, vertices but no indices, and an empty middle LOD, and with the sections stored with holes between them, with the runtime section last and in reverse order; entry offsets 0, 128, 0x800"
 //@desc extraction returns exactly the packed bytes: a standard entry the concatenation of its blocks; a texture entry its header followed by every mip block in order; a model entry the synthesized 0x44-byte header (version, stack/runtime sizes, counts, per-LOD vertex/index offsets and sizes describing the reassembled sections) followed by the stack, runtime, vertex and index sections; however the content is split and whether each block is raw or deflated
 #[test]
 fn native_sqpack_reassembly() {
@@ -211,6 +228,14 @@ fn native_sqpack_reassembly() {
             assert!(got == expect, "model entry with partial LODs (variant {vi}, shape {shape}): sections differ ({} vs {} bytes)", got.len(), expect.len());
             cases += 1;
         }
+    }
+    // compressed blocks whose stream is exactly as long as the content it expands to (6 bytes to 6 bytes) - still compressed blocks
+    for (k, blocks) in [vec![(b"abcabc".to_vec(), NMode::DeflateRepeat3)], vec![(nd_pattern(10, 1), NMode::Raw), (b"xyzxyz".to_vec(), NMode::DeflateRepeat3), (nd_pattern(5, 2), NMode::DeflateStored)],
+                        vec![(b"QRSQRS".to_vec(), NMode::DeflateRepeat3), (b"   ".repeat(2), NMode::DeflateRepeat3), (nd_pattern(300, 3), NMode::DeflateFixed)]].into_iter().enumerate() {
+        let (entry, expect) = nd_standard(&blocks);
+        let got = nd_extract(&entry, 128, "std-eq").expect("standard entry with equal-length compressed blocks extracts");
+        assert!(got == expect, "standard entry {k} with a compressed block as long as its content: got {:02x?}, expected {:02x?}", &got[..got.len().min(24)], &expect[..expect.len().min(24)]);
+        cases += 1;
     }
     // sections that are not stored back to back in the canonical order: holes between them, runtime section last, reverse order
     for storage in 1..=3u8 { for shape in 0..4usize { for lods in [1u8, 3] {
